@@ -1,10 +1,12 @@
 import I18n.Driver.Plural
+import I18n.Driver.Tags
 /- Line-protocol driver: `<model> <op> <args…>` per line on stdin, one canonical line per op on stdout. -/
 open I18n.Driver
 
 def step (line : String) : String :=
   match (line.trimAscii.toString.splitOn " ").filter (· ≠ "") with
   | "plural" :: op :: args => Plural.handle op args
+  | "tags" :: op :: args => Tags.handle op args
   | _ => "bad-op"
 
 partial def loop (h : IO.FS.Stream) (out : IO.FS.Stream) : IO Unit := do
